@@ -6,14 +6,31 @@ Local Open Scope Z_scope.
 
 (** MessageQueue, every operation sequence: each published message occurs
     exactly once across pending / in flight / acknowledged / dead-letter queue /
-    pushed out of a full dead-letter queue / rejected for good without a DLQ;
+    pushed out of a full dead-letter queue / rejected for good without a DLQ /
+    taken out of the DLQ by reprocess_all (the loss of c19_mq_never_lost_refuted);
     ids never published occur nowhere. *)
 Theorem c19_mq_accounting : forall cfg ops id,
   let s := run cfg ops in
   cnt id (q_pending s) + cnt id (q_inflight s) + cnt id (g_acked s) + cnt id (q_dead s)
-    + cnt id (g_dlqlost s) + cnt id (g_dropped s) = published s id.
+    + cnt id (g_dlqlost s) + cnt id (g_dropped s) + cnt id (g_reproc s) = published s id.
 Proof. exact mq_accounting. Qed.
 Print Assumptions c19_mq_accounting.
+
+(** "Never lost" over every operation of the package, DLQ reprocessing
+    included: REFUTED on the faithful model (known finding
+    C19-dlq-reprocess-ignored); PARTIAL: it holds for all publish / poll / ack /
+    reject / timeout / subscribe sequences. *)
+Theorem c19_mq_never_lost_refuted : ~ never_lost_statement.
+Proof. exact mq_never_lost_refuted. Qed.
+Print Assumptions c19_mq_never_lost_refuted.
+
+Theorem c19_mq_never_lost_partial : forall cfg ops id,
+  Forall (fun o => o <> DlqReprocessAll) ops ->
+  let s := run cfg ops in
+  cnt id (q_pending s) + cnt id (q_inflight s) + cnt id (g_acked s) + cnt id (q_dead s)
+    + cnt id (g_dlqlost s) + cnt id (g_dropped s) = published s id.
+Proof. exact mq_never_lost_partial. Qed.
+Print Assumptions c19_mq_never_lost_partial.
 
 Theorem c19_mq_stored_split : forall cfg ops id,
   let s := run cfg ops in
